@@ -60,7 +60,44 @@ def run(res):
             t = ".device %s\n%s\n" % (name, text)
             texts.append(t)
             meta.append((t, name, text, flags, set(opts)))
-    obs = P.correspond(res, vh, exe, texts, "device x instruction-form programs")
+    # sequences: the verdict on an instruction must not depend on what was assembled before it - every ordered pair of forms of
+    # one mnemonic, and random triples of forms, under every device
+    import random
+    rng = random.Random(res.seed)
+    fam = {}
+    for text, flags in FORMS:
+        fam.setdefault(text.split()[0], []).append((text, flags))
+    seqs = []
+    for name, _, _, _, _, opts in devs[1:]:
+        for m, forms in fam.items():
+            if len(forms) > 1:
+                for f1 in forms:
+                    for f2 in forms:
+                        if f1 is not f2:
+                            seqs.append((name, set(opts), [f1, f2]))
+        for _ in range(12 if res.tier == "quick" else 120):
+            seqs.append((name, set(opts), [rng.choice(FORMS) for _ in range(3)]))
+    seq_meta = []
+    for name, opts, forms in seqs:
+        kind = rng.choice([0, 0, 1, 2])
+        lines = []
+        for k, f in enumerate(forms):
+            if k and kind == 1:
+                lines.append(".org %d" % (8 * k))
+            elif k and kind == 2:
+                lines.append("lab%d_%d:" % (len(seq_meta), k))
+            lines.append(f[0])
+        t = ".device %s\n%s\n" % (name, "\n".join(lines))
+        texts.append(t)
+        seq_meta.append((t, name, opts, forms))
+    obs = P.correspond(res, vh, exe, texts, "device x instruction-form programs and sequences")
+    for t, name, opts, forms in seq_meta:
+        a = progrun.parse_obs(obs[t][0])
+        bad = [f[0] for f in forms if f[1] & opts]
+        if bad and a["kind"] != "ERR":
+            P.fail(res, "builder::build_str", t, "a failed build: %s lacks %s" % (name, bad[0]), obs[t][0][:60], "gate-open-in-sequence")
+        elif not bad and a["kind"] != "OK":
+            P.fail(res, "builder::build_str", t, "assembles: every instruction exists on " + name, obs[t][0][:60], "gate-closed-in-sequence")
     ndis = 0
     for t, name, text, flags, opts in meta:
         a = progrun.parse_obs(obs[t][0])
@@ -78,12 +115,14 @@ def run(res):
                 P.fail(res, "builder::build_str", t, "code " + str(base.get("code")), "code " + a["code"], "bytes-differ")
             elif avr8l_ldsts and len(a["code"]) != 4:
                 P.fail(res, "builder::build_str", t, "the one-word lds/sts form", "code " + a["code"], "avr8l-length")
-    res.extra["distribution"].update(devices=len(devs) - 1, forms=len(FORMS), disabled_pairs=ndis, pairs=len(meta))
+    res.extra["distribution"].update(devices=len(devs) - 1, forms=len(FORMS), disabled_pairs=ndis, pairs=len(meta), sequences=len(seq_meta))
     res.extra["exhaustive"] = True
     res.rule = ("every device row (regenerated from /repo) x %d instruction forms (every mnemonic, every X/Y/Z addressing form, the "
                 "lpm/elpm variants); oracle: flag meanings as documented in device.rs (NoMul = six multiplies, NoJmp = jmp+call, "
                 "NoXreg/NoYreg = every X/Y form, Tiny1x = adiw sbiw ijmp icall ldd std lds sts push pop, NoLpm, NoLpmX = lpm Rd,Z[+], "
-                "NoElpm, NoElpmX, NoSpm, NoMovw, NoBreak, NoEicall, NoEijmp, Avr8l = adiw sbiw + one-word lds/sts)" % len(FORMS))
+                "NoElpm, NoElpmX, NoSpm, NoMovw, NoBreak, NoEicall, NoEijmp, Avr8l = adiw sbiw + one-word lds/sts); plus, per device, every ordered "
+                "pair of forms of one mnemonic and random triples of forms (separated by nothing, .org or a label): the verdict on a form must "
+                "not depend on what precedes it" % len(FORMS))
     res.samples = [dict(source=m[0], flags=sorted(m[3] & m[4]), observed=obs[m[0]][0][:40]) for m in meta[:3]]
     res.assume = ["GateSpec (FORMS in vlib/c13.py, mirrored by Spec/GateSpec.v) is my reading of the flag comments in device.rs"]
 
